@@ -15,9 +15,10 @@ CONSTANTS
     EvoCap = 63
     LastEvo = 63
     UMax = 200
+    RoundKeyUnique = TRUE
     KesAliasPastLast = TRUE
     StakeOf <- StakeOfDef
-    ExcuseRoundDup = TRUE
+    ExcuseRoundDup = FALSE
     ExcuseKesAlias = TRUE
 SPECIFICATION Spec
 INVARIANTS Soundness StakeBound
